@@ -24,6 +24,10 @@ func main() {
 	switch os.Args[1] {
 	case "tok":
 		cmdTok(seed, tier, outdir)
+	case "c08":
+		cmdC08(seed, tier, outdir)
+	case "match":
+		cmdMatch(seed, tier, outdir)
 	default:
 		fmt.Fprintln(os.Stderr, "unknown command", os.Args[1])
 		os.Exit(2)
